@@ -17,7 +17,13 @@ def run(tier):
     for (k, n, m) in kinds:
         jobs.append(lambda k=k, n=n, m=m: machine_run(k, n, m, "OpsElem", depth=3, mant=53, props=False,
                                                       loadset="LoadSetQuick" if tier == "quick" else "LoadSetGeneric"))
+    nfirst = len(jobs)
+    # nested types: the chain rule of the outer level runs on towers that are themselves dual numbers
+    for (k, n, m, inner) in NESTED_THOROUGH:
+        jobs.append(lambda k=k, n=n, m=m, inner=inner: machine_run(k, n, m, "OpsElem", depth=3, mant=53, props=False, inner=inner,
+                                                                   loadset="LoadSetNested", workers=3, tag="_elem"))
     res = parallel(jobs, max_par=5)
+    nested_res, res = res[nfirst:], res[:nfirst]
     ref, tw, tb = res[0], res[1], res[2]
     chk.add_tlc(ref, "chain rule of every type = Faa di Bruno over slot partitions (symbolic, all presence patterns)")
     chk.add_tlc(tw, "closed forms f0..f3 of derivatives.rs = towers derived by TLC from the derivation on generators, at rational points of every variety; composites tan/tanh/sph_j*")
@@ -32,6 +38,18 @@ def run(tier):
         rep = replay(r)
         absorb_replay(chk, rep, "exact probe")
     require_cases(chk, chk.distinct, kinds, ELEM_OPS, mants=(53,), what="C01 exact probes")
+    nested_fns = set()
+    for r in nested_res:
+        chk.add_tlc(r, "exact chain-rule probes on a nested type (layer B instantiated over layer B)")
+        if r.violated:
+            chk.model_violation(r, "MachineN")
+            continue
+        rep = replay(r)
+        absorb_replay(chk, rep, "exact probe (nested type)")
+        nested_fns |= {c.split("|")[1] for c in rep["per_case"]}
+    for fn in ("sin", "cos", "exp", "ln", "atan", "asinh", "tanh", "exp_m1", "ln_1p", "atanh", "asin", "sinh", "cosh"):
+        if fn not in nested_fns:
+            raise ToolError("vacuity: nested types never exercised %s exactly" % fn)
     samples = 25 if tier == "quick" else 2500
     rep = run_harness("hcore", ["float-elem", "--tables", tb.out_path + "," + tw.out_path, "--samples", str(samples),
                                 "--seed", str(seed()), "--k", str(K_TOL)], timeout=3000)
